@@ -315,6 +315,9 @@ func Main(su Suite, replayPath string) int {
 		}
 		b, _ := json.Marshal(out)
 		_ = os.WriteFile(os.Getenv("VERIF_WORKER_OUT"), b, 0o644)
+		if os.Getenv("VERIF_STATS") != "" {
+			fmt.Fprintf(os.Stderr, "phases: run=%v teardown=%v hooks=%v\n", vsched.StatRun, vsched.StatTear, vsched.StatHooks)
+		}
 		return 0
 	}
 	lvl := "exploration"
@@ -341,7 +344,7 @@ func Main(su Suite, replayPath string) int {
 			outf := fmt.Sprintf("%s/w%d.json", scratch, i)
 			cmd := exec.Command(os.Args[0])
 			cmd.Env = append(os.Environ(), fmt.Sprintf("VERIF_WORKER=%d/%d", i, nw), "VERIF_WORKER_OUT="+outf,
-				fmt.Sprintf("VERIF_DEADLINE=%d", deadline.Unix()), "GOMAXPROCS=1", "GOGC=400", "VERIF_SCRATCH="+scratch)
+				fmt.Sprintf("VERIF_DEADLINE=%d", deadline.Unix()), "GOMAXPROCS=1", "GOGC=200", "GOMEMLIMIT=900MiB", "VERIF_SCRATCH="+scratch)
 			cmd.Stderr = os.Stderr
 			if err := cmd.Run(); err != nil {
 				mu.Lock()
